@@ -48,16 +48,16 @@ QUICK = [
 ]
 THOROUGH = [
     [("sub1_2x2L", dict(prices=(40, 50, 70), amounts=(2, 3, 5), mb=2, ms=2, lasts=(0, 40, 50, 70)))],
-    [("tp2_2x2", dict(tp=2, pd=1000, prices=(499, 500, 501, 505), amounts=(2, 3, 9), mb=2, ms=2, lasts=(0, 500)))],
+    [("tp2_2x2", dict(tp=2, pd=1000, prices=(499, 500, 505), amounts=(2, 3, 9), mb=2, ms=2, lasts=(0, 500)))],
     [("s3b2", dict(prices=(40, 50, 70), amounts=(2, 3), mb=2, ms=3, lasts=(0, 50)))],
     [("b3s2", dict(prices=(40, 50, 70), amounts=(2, 3), mb=3, ms=2, lasts=(0, 50)))],
     [("b3s3", dict(prices=(50, 70), amounts=(2, 5), mb=3, ms=3, lasts=(0, 50, 70)))],
-    [("pow10L", dict(prices=(98, 99, 100, 110), amounts=(1, 2, 3), mb=2, ms=2, lasts=(0, 99, 100))),
+    [("pow10L", dict(prices=(98, 99, 100, 110), amounts=(1, 3), mb=2, ms=2, lasts=(0, 99, 100))),
      ("big1", dict(prices=(190, 200, 210), amounts=(1, 2, 3), mb=2, ms=2, lasts=(0, 200)))],
-    [("pool2x2", dict(prices=(45, 50, 55), amounts=(150, 400, 1000), mb=2, ms=2, lasts=(0, 50), kinds=("basic", "ranged"), rx=(2000, 2100), ry=(4000,), mn=30, mx=90)),
-     ("pool_hi", dict(prices=(190, 200, 220), amounts=(120, 500), mb=2, ms=2, lasts=(0, 200), kinds=("basic", "ranged"), rx=(8000,), ry=(4000,), mn=110, mx=350))],
+    [("pool2x2", dict(prices=(45, 50, 55), amounts=(150, 400), mb=2, ms=2, lasts=(0, 50), kinds=("basic", "ranged"), rx=(2000, 2100), ry=(4000,), mn=30, mx=90))],
+    [("pool_hi", dict(prices=(190, 200, 220), amounts=(120, 500), mb=2, ms=2, lasts=(0, 200), kinds=("basic", "ranged"), rx=(8000,), ry=(4000,), mn=110, mx=350))],
 ]
-DESIGN_Q = dict(prices=(40, 70), amounts=(2, 3), mb=2, ms=2, lasts=(0,), emit=False, explore=True)
+DESIGN_Q = dict(prices=(40, 70), amounts=(2, 3, 5), mb=2, ms=2, lasts=(0,), emit=False, explore=True)
 DESIGN_T = dict(prices=(40, 50, 70), amounts=(2, 3, 5), mb=2, ms=2, lasts=(0,), emit=False, explore=True)
 
 
@@ -105,6 +105,9 @@ def run(c):
             samples = [pick[0], pick[len(pick) // 2], pick[-1]] if len(pick) >= 3 else nodes[:3]
             del nodes
         os.remove(logf)
+        lnk = os.path.join(c.wd, "log.ndjson")       # (vlib.trace_check leaves a symlink; a dangling one blocks the next batch)
+        if os.path.lexists(lnk):
+            os.remove(lnk)
     c.samples = samples
     need = ["matched", "big", "withLast", "poolMatched", "multiFill", "partial", "mixedAges", "kmatch", "kfull", "ranged"]
     if any(stats.get(k, 0) == 0 for k in need):
